@@ -4,6 +4,7 @@ import StepModel.ExpLex
 import StepModel.ExpEntitySyn
 import StepModel.ExpStmtSyn
 import StepModel.ExpTypeDeclSyn
+import StepModel.ExpSchemaSyn
 /-! Line-protocol driver for the exppp model (property C07).
 
   pp <linelen> <t:0|1> <c:0|1> SCHEMA…      -> `P <escaped text>` | `parse-error`
@@ -299,6 +300,61 @@ partial def rdStmtList : Rd Stmt := do
   pure (xs.foldr Stmt.cons .nil)
 end
 
+/-! `schema <hex name> <consts> <decls>` : a whole schema -> the tokens of `schemaToks` and whether `parseSchema` reads them back
+consts := `<n> {<hex name> <type>}`;  decls := `<n> decl…`;
+decl := `TD <typedecl>` | `EN <entity>` | `FN <hex> <n> {param} <ret 0/1> [<type>] decls consts <nlocals> {local} <stmt list>`
+      | `RL <hex> <n> {<hex>} decls consts <nlocals> {local} <stmt list> <n rules> {<label|->}` -/
+def rdTypeDecl : Rd TypeDeclS := do
+  let name ← hexw
+  let body ← (do
+    match (← word) with
+    | "T" => pure (TyBody.ty (← rdTy))
+    | "EN" => pure (TyBody.enum (← rep (← nat) hexw))
+    | "SL" => pure (TyBody.select (← rep (← nat) hexw))
+    | _ => failure)
+  let dom ← rep (← nat) (do
+    let l ← word
+    pure ({ label := if l = "-" then none else some (unhex l), expr := .ident "E" } : DomRule))
+  pure { name, body, dom }
+
+def rdConsts : Rd (List ConstDeclS) := do
+  rep (← nat) (do
+    let name ← hexw
+    let ty ← rdTy
+    pure ({ name, ty, init := .ident "E" } : ConstDeclS))
+
+mutual
+partial def rdDecl : Rd Decl := do
+  match (← word) with
+  | "TD" => pure (.typeD (← rdTypeDecl))
+  | "EN" => pure (.entityD (← rdEntity))
+  | "FN" =>
+    let name ← hexw
+    let ps ← rep (← nat) rdParam
+    let hr ← flag
+    let ret ← if hr then do pure (some (← rdTy)) else pure none
+    let nested ← rdDecls
+    let cs ← rdConsts
+    let ls ← rep (← nat) rdLocal
+    let b ← rdStmtList
+    pure (.alg name ps ret nested cs ls b)
+  | "RL" =>
+    let name ← hexw
+    let ents ← rep (← nat) hexw
+    let nested ← rdDecls
+    let cs ← rdConsts
+    let ls ← rep (← nat) rdLocal
+    let b ← rdStmtList
+    let dom ← rep (← nat) (do
+      let l ← word
+      pure ({ label := if l = "-" then none else some (unhex l), expr := .ident "E" } : DomRule))
+    pure (.rule name ents nested cs ls b dom)
+  | _ => failure
+partial def rdDecls : Rd Decl := do
+  let xs ← rep (← nat) rdDecl
+  pure (xs.foldr Decl.cons .nil)
+end
+
 def esc (s : List Char) : String :=
   String.ofList (s.flatMap fun c => if c = '\n' then ['\\', 'n'] else if c = '\\' then ['\\', '\\'] else [c])
 
@@ -328,6 +384,18 @@ def handle (line : String) : String :=
     match lex (unhexL h.toList) with
     | some ts => "L " ++ " ".intercalate (ts.map wordOfTok)
     | none => "lex-error"
+  | "schema" :: rest =>
+    let rd : Rd SchemaS := do
+      let name ← hexw
+      let cs ← rdConsts
+      let ds ← rdDecls
+      pure { name, consts := cs, decls := ds }
+    match rd.run rest with
+    | some (s, []) =>
+      let ts := schemaToks s
+      let back := parseSchema (8 * ts.length + 64) ts
+      "D " ++ " ".intercalate (ts.map dtokStr) ++ (if back == some (s.erase, []) then " | roundtrip-ok" else " | roundtrip-differs")
+    | _ => "bad-op"
   | "typedecl" :: rest =>
     -- `typedecl <hex name> (T <type> | EN <n> <hex>… | SL <n> <hex>…) <n rules> <label|->…`
     let rd : Rd TypeDeclS := do
